@@ -34,7 +34,8 @@ def gen_value(info, t, col, i, depth=0):
                 return None if i == 0 else gen_value(info, rt, rcol, 0, depth + 1)
             return gen_value(info, rt, rcol, i, depth + 1)
     if "DATETIME" in typ or "TIMESTAMP" in typ:
-        return f"2020-01-0{i + 1} 10:00:05.123456"
+        # every timestamp column gets its own sub-second part (a migration mixing columns up must show)
+        return f"2020-01-0{i + 1} 10:00:05.{(sum(map(ord, t + '.' + name)) * 7919 + i) % 1000000:06d}"
     if "BOOL" in typ:
         return i % 2
     if "BLOB" in typ or "BINARY" in typ:
